@@ -15,6 +15,7 @@
 """
 
 import ast
+from ..source import clone as _clone
 
 from ..flow import Flow
 from ..norm import NotAlgebraic, Poly, py_poly
@@ -696,7 +697,7 @@ def _lineage_of_stored_rows(ctx, chk, f, flow, kind, tabs, ids_n, offs_n, map_n,
                     if ast.dump(b_) == ast.dump(v):
                         return a
                 return node
-        return T().visit(copy.deepcopy(e))
+        return T().visit(_clone(e))
 
     def resolve(v, sid_name):
         """v with LIST[sid] replaced by what the row loop appended to LIST; None if some LIST[sid] is not an aligned list."""
